@@ -10,6 +10,7 @@ import (
 	"sync"
 
 	"github.com/paulmach/orb"
+	"github.com/paulmach/orb/geojson"
 	"github.com/paulmach/orb/quadtree"
 )
 
@@ -53,6 +54,42 @@ func main() {
 						q.InBound(nil, b)
 						buf = q.InBound(buf, b)
 						q.InBoundMatching(nil, b, even)
+					}
+				}(g)
+			}
+			wg.Wait()
+			total += n * 50 * 8
+		}
+	}
+	// the members the library itself offers as pointers: geojson features (their position is derived from the geometry
+	// on every visit), one of them at the origin, one symmetric about it, one far from it
+	{
+		q := quadtree.New(orb.Bound{Min: orb.Point{-4, -4}, Max: orb.Point{4, 4}})
+		for i, g := range []orb.Geometry{orb.Point{0, 0}, orb.MultiPoint{{-3, 0}, {3, 0}}, orb.Point{2, 2}, orb.LineString{{1, 1}, {3, 2}}, orb.Point{-2, 1},
+			orb.Polygon{{{-1, -3}, {1, -3}, {1, -1}, {-1, -3}}}, orb.Point{0, 0}, orb.Point{3.5, -3.5}} {
+			f := geojson.NewFeature(g)
+			f.ID = i
+			q.Add(f)
+		}
+		evenF := func(p orb.Pointer) bool { return p.(*geojson.Feature).ID.(int)%2 == 0 }
+		for _, n := range []int{2, 8, 32} {
+			var wg sync.WaitGroup
+			for g := 0; g < n; g++ {
+				wg.Add(1)
+				go func(g int) {
+					defer wg.Done()
+					buf := make([]orb.Pointer, 0, 8)
+					for it := 0; it < 50; it++ {
+						pt := orb.Point{float64((g+it)%5) - 2, float64((g*it)%5) - 2}
+						b := orb.Bound{Min: orb.Point{-4, -4}, Max: orb.Point{float64(it%4) - 1, 4}}
+						q.Find(pt)
+						q.Matching(pt, evenF)
+						q.KNearest(nil, pt, 3)
+						buf = q.KNearest(buf, pt, 2, 2.5)
+						q.KNearestMatching(nil, pt, 2, evenF)
+						q.InBound(nil, b)
+						buf = q.InBound(buf, b)
+						q.InBoundMatching(nil, b, evenF)
 					}
 				}(g)
 			}
